@@ -37,18 +37,25 @@ TEXTS = {
                      'lemma_ctx_ok); normalize_doc deterministic on document values and FlatChoice cache mutation invisible (value '
                      'semantics); existence of an oracle agreeing with the recorded decisions (indices are distinct: meta-argument); '
                      'generator laziness not modelled.'),
-    'C05': dict(category='other', engine='pyvc+bounded', technique=_PYVC + '; ' + _BOUNDED,
-                text='Proved for all inputs: both fitting predicates return exactly fits(...) of a compositional width semantics (iff contract, '
-                     'loop invariant, termination); best_layout lays a group out flat only when its predicate said so and never when an '
-                     'always_break is reachable in it; normalisation is proved (family normalize). Not proved: the last link (ghost line '
-                     'budget: the finished line stays within the limit). Bounded: decisions recovered through the reference semantics on all '
-                     'classic documents of <= 5 (6) nodes x widths x fractions x strategies: every flat group line within min(W, indent + R).',
-                note=_ENC + 'same assumptions as C04; float*int and round() uninterpreted.'),
+    'C05': dict(category='proof', engine='pyvc+bounded', technique=_PYVC + '; ' + _BOUNDED,
+                text='Proved for all inputs (classic documents without align, hard lines only outside groups or behind always_break): at the '
+                     'moment best_layout continues a group in flat mode, the first line of everything that remains to be rendered - the line '
+                     'the text of the group is put on - ends at or before min(W, indent + R), for every later decision (ghost assertion over the '
+                     'denotational semantics den, which the output is proved equal to, C04). Chain: both fitting predicates return exactly '
+                     'fits(...) (iff contract, loop invariants, termination); the group continues FLAT iff fits(available width); available '
+                     'width == min(W - col, indent + R - col); smart fits implies fast fits (lemma_fits_mono); what fits bounds the first line '
+                     'of den (lemma_bound, lemma_fits_bounds_line, structural induction with independent indentations and modes); the normal '
+                     'form keeps atoms (family normalize). Bounded stand-in (not counted as proved): decisions recovered through the reference '
+                     'semantics on all classic documents INCLUDING align of <= 5 (6) nodes x widths x fractions x strategies.',
+                note=_ENC + 'same assumptions as C04; float*int and round() uninterpreted; align (contextual documents) is outside the proved '
+                            'statement: the predicate and the engine evaluate the function at different columns.'),
     'C06': dict(category='other', engine='pyvc+bounded', technique=_PYVC + '; ' + _BOUNDED,
-                text='Proved for all inputs: a fitting predicate answers False exactly when the compositional fits() is False (other direction of '
-                     'the C05 contract) - fits() unfolds to the reasons the statement lists - and content with a reachable always_break never '
-                     'fits (lemma_forced_fails). Counter-models replay on the real predicates. Bounded: the one-line corollary for documents '
-                     'and for values at widths L, L+1, L+2.',
+                text='Proved for all inputs: best_layout continues a group in BREAK mode exactly when fits(available width, strategy, '
+                     'min(outcol, indent), rest of the line with the group flat) is False and available width == min(W - col, indent + R - col) '
+                     '(ghost assertions at the decision); each fitting predicate answers False exactly when the compositional fits() is False - '
+                     'fits() unfolds to the reasons the statement lists - and content with a reachable always_break never fits '
+                     '(lemma_forced_fails). Counter-models replay on the real predicates. Bounded: the one-line corollary for documents and for '
+                     'values at widths L, L+1, L+2 (the corollary over pformat is not proved).',
                 note=_ENC + 'same assumptions as C04.'),
     'C07': dict(category='other', engine='bounded', technique=_BOUNDED,
                 text='Bounded: 263 boundary values of the 20 shipped stdlib types, all 597 pytz zones, seeded random datetime-family values x 7 '
